@@ -714,8 +714,17 @@ fn check_str(r: jubako::Result<bool>) -> String {
 /// pack of the damaged files cut out at its pristine span.
 fn observe_checks(entry: &Path, case_dir: &Path, names: &[String], spans: &[Vec<PackSpan>], touched: &[usize], extra: bool) -> Value {
     use jubako::Pack;
+    // (asked twice of the same object, opened after the alteration: an error the first time must
+    // not turn into "all is well" the second time)
+    let mut container_again = "not-asked".to_string();
     let container = match jubako::reader::Container::new(entry) {
-        Ok(c) => check_str(c.check()),
+        Ok(c) => {
+            let first = check_str(c.check());
+            if extra {
+                container_again = check_str(c.check());
+            }
+            first
+        }
         Err(e) => format!("OpenErr:{}", dump::err_class(&e)),
     };
     // the same question to a container that has been used first: every pack asked for, a content
@@ -803,7 +812,7 @@ fn observe_checks(entry: &Path, case_dir: &Path, names: &[String], spans: &[Vec<
     // (whether a descriptor number below the limit happens to be free depends on when background
     // threads of earlier containers close theirs: judged like the others, but kept out of the
     // deterministic record - `timing_dependent` keys are dropped before a record is digested)
-    json!({"container": container, "container_after_use": container_used, "timing_dependent": {"container_without_descriptors": container_no_fd}, "files": file_checks, "packs": pack_checks})
+    json!({"container": container, "container_asked_again": container_again, "container_after_use": container_used, "timing_dependent": {"container_without_descriptors": container_no_fd}, "files": file_checks, "packs": pack_checks})
 }
 
 fn fault_hits_manifest_slot(fault: &Fault, spans: &[Vec<PackSpan>]) -> bool {
@@ -1224,6 +1233,9 @@ fn c04_violation(rec: &Value, exempt: bool) -> Option<String> {
     let mut trues = vec![];
     if obs["container"] == "true" {
         trues.push("Container::check".to_string());
+    }
+    if obs["container_asked_again"] == "true" {
+        trues.push("Container::check(second call on the same container)".to_string());
     }
     if obs["timing_dependent"]["container_without_descriptors"] == "true" {
         trues.push("Container::check(no file descriptor left: pack files cannot be opened)".to_string());
